@@ -38,10 +38,25 @@ func (fc *FnCtx) baseHeap() *Heap {
 	h := &Heap{regs: map[string]string{}}
 	h.lazy = func(r, s string) string {
 		n := qsym(r + "@0")
-		fc.declare(n, s)
+		if !fc.declared[n] {
+			fc.declare(n, s)
+			fc.regionRangeAxiom(r, n)
+		}
 		return n
 	}
 	return h
+}
+
+var elemRanges = map[string]intKind{"E.u8": {8, false}, "E.uint16": {16, false}, "E.uint32": {32, false}, "E.uint64": {64, false}, "E.int": {64, true}, "E.int64": {64, true}, "E.int32": {32, true}}
+
+// regionRangeAxiom: the elements of integer arrays stay within their type's range in every heap version.
+func (fc *FnCtx) regionRangeAxiom(region, name string) {
+	k, ok := elemRanges[region]
+	if !ok {
+		return
+	}
+	t := sel2(name, "o", "k")
+	fc.assume(fmt.Sprintf("(forall ((o Int) (k Int)) (! %s :pattern (%s)))", k.inRange(t), t))
 }
 
 // Generate produces all obligations of the function.
@@ -614,7 +629,10 @@ func (fc *FnCtx) enterLoop(li *loopInfo) {
 		}
 		if li.modAll || li.modRegs[r] {
 			c := qsym(fmt.Sprintf("%s@loop%d", r, ord))
-			fc.declare(c, s)
+			if !fc.declared[c] {
+				fc.declare(c, s)
+				fc.regionRangeAxiom(r, c)
+			}
 			return c
 		}
 		return pre.get(r, s)
@@ -689,7 +707,10 @@ func (fc *FnCtx) closeLoop(li *loopInfo, latch *ssa.BasicBlock) {
 	for i, inv := range li.con.Invariants {
 		t := fc.evalBool(inv.E, env)
 		for j, g := range splitGoal(t) {
-			fc.oblige("inv-pres", fmt.Sprintf("%s.%d.%d", loopName, i+1, j+1), g, inv.Props, "invariant preserved: "+inv.Text, token.NoPos)
+			o := fc.oblige("inv-pres", fmt.Sprintf("%s.%d.%d", loopName, i+1, j+1), g, inv.Props, "invariant preserved: "+inv.Text, token.NoPos)
+			for _, u := range inv.Uses {
+				o.Extra = append(o.Extra, fc.eng.lemmaFormula(fc, u))
+			}
 		}
 	}
 	if li.con.Decreases != nil {
